@@ -80,7 +80,8 @@ def base_data(ent, base):
     d = {}
     for kind in KINDS:
         n = len(keys[kind])
-        d[PRE[kind]] = np.ones(n)
+        # G2 carries generic prefactors exp(+-0.5) as well (G1 and X keep unit prefactors; single prefactors are also varied by letters)
+        d[PRE[kind]] = np.exp(np.array([hval(k, 'G2:pre') for k in keys[kind]])) if base == 'G2' else np.ones(n)
         e = np.array([amp * hval(k, base) for k in keys[kind]])
         if kind in ('T0', 'T1', 'T2'): e = e + off
         d[ENE[kind]] = e
